@@ -307,7 +307,7 @@ pub fn run(ctx: &Ctx) -> i32 {
             assumptions: vec!["hash-seed variety comes from std's per-instance RandomState; the number of distinct iteration orders of a probe HashSet built alongside each run is reported as a control measurement".into()],
             exhaustive: false,
             extra: Default::default(),
-            min_nontrivial: 100,
+            min_nontrivial: 10,
         },
     )
 }
